@@ -1878,6 +1878,7 @@ func (l *lexer) lexRuneLiteral() error {
 	// Stops when it finds the "'" character and returns an error when
 	// it finds a Unicode character that is not valid in a rune literal.
 	var p int
+	var cols int // columns before the closing quote, if different from p
 	if len(l.src) == 1 {
 		return l.errorf("rune literal not terminated")
 	}
@@ -1957,12 +1958,16 @@ func (l *lexer) lexRuneLiteral() error {
 			return l.errorf(bomErrorMsg)
 		}
 		p = s + 1
+		cols = 2
 	}
 	if len(l.src) <= p || l.src[p] != '\'' {
 		return l.errorf("rune literal not terminated")
 	}
 	l.emit(tokenRune, p+1)
-	l.column += p + 1
+	if cols == 0 {
+		cols = p
+	}
+	l.column += cols + 1
 	return nil
 }
 
